@@ -64,7 +64,11 @@ pub fn cli() -> Cli {
                     other => machinery_failure(&format!("bad --tier {other:?}")),
                 }
             }
-            "--replay" => replay = args.next().map(PathBuf::from),
+            "--replay" => {
+                replay = Some(PathBuf::from(
+                    args.next().unwrap_or_else(|| machinery_failure("--replay needs a file")),
+                ))
+            }
             _ => rest.push(a),
         }
     }
@@ -231,11 +235,39 @@ impl Report {
                 self.property, f.what, f.pattern, n
             );
         }
+        let _ = std::fs::remove_file(
+            verif_root().join("replays").join(&self.property).join(format!("{}-all-violations.txt", self.tier.name())),
+        );
+        if !self.violations.is_empty() {
+            let _ = std::fs::create_dir_all(verif_root().join("replays").join(&self.property));
+            let all: Vec<String> = self.violations.iter().map(|v| format!("{}\t{}", v.signature, truncate(&v.detail, 300))).collect();
+            let _ = std::fs::write(
+                verif_root().join("replays").join(&self.property).join(format!("{}-all-violations.txt", self.tier.name())),
+                all.join("\n"),
+            );
+        }
         // Distinct unlisted signatures, first (= smallest, enumeration is simplest-first) of each.
         let mut seen: Vec<String> = vec![];
         let dir = verif_root().join("replays").join(&self.property);
         let mut unlisted_sigs = vec![];
+        // Order: first one representative per violation class (signature up to its second ';'),
+        // then the rest, so the capped list of replay files is as diverse as possible.
+        let class_of = |s: &str| s.splitn(3, ';').take(2).collect::<Vec<_>>().join(";");
+        let mut ordered: Vec<&Violation> = vec![];
+        let mut classes: Vec<String> = vec![];
         for v in &unlisted {
+            let c = class_of(&v.signature);
+            if !classes.contains(&c) {
+                classes.push(c);
+                ordered.push(v);
+            }
+        }
+        for v in &unlisted {
+            if !ordered.iter().any(|o| std::ptr::eq(*o, *v)) {
+                ordered.push(v);
+            }
+        }
+        for v in &ordered {
             if seen.contains(&v.signature) {
                 continue;
             }
@@ -258,7 +290,7 @@ impl Report {
             println!("  signature: {}", v.signature);
             println!("  detail: {}", truncate(&v.detail, 600));
             unlisted_sigs.push(v.signature.clone());
-            if seen.len() >= 25 {
+            if seen.len() >= 40 {
                 println!("  (further distinct violations suppressed)");
                 break;
             }
